@@ -87,10 +87,14 @@ class TVD:
             # (reflection at the boundary without bounds check), such that the result
             # depends on the neighbouring memory. Replicate such axes - which does not
             # change the minimizer - and reduce afterwards.
+            # NOTE: scikit-image treats a one-dimensional signal as an image with a single
+            # row.
+            extended_img = img[np.newaxis, :] if img.ndim == 1 else img
             single_voxel_axes = [
-                axis for axis in range(min(img.ndim, 2)) if img.shape[axis] == 1
+                axis
+                for axis in range(min(extended_img.ndim, 2))
+                if extended_img.shape[axis] == 1
             ]
-            extended_img = img
             for axis in single_voxel_axes:
                 extended_img = np.repeat(extended_img, 2, axis=axis)
             result = skimage.restoration.denoise_tv_bregman(
@@ -102,7 +106,7 @@ class TVD:
             )
             for axis in single_voxel_axes:
                 result = np.take(result, [0], axis=axis)
-            return result
+            return result.reshape(img.shape)
 
         elif self.method == "heterogeneous bregman":
             return darsia.split_bregman_tvd(
